@@ -13,7 +13,7 @@ def build(ctx):
     ctx.log("translate", out)
     if not ok:
         ctx.diag.append("translator failed: " + out[-300:])
-    C.prove(ctx, ["Props/C12.v", "Props/C12Valid.v", "Props/C12Opts.v"], ["Oblig/C12Obl.v", "Oblig/ValidFlatObl.v", "Oblig/OptSitesObl.v", "Oblig/C12OptsObl.v"])
+    C.prove(ctx, ["Props/C12.v", "Props/C12Valid.v", "Props/C12Opts.v", "Props/C12Full.v"], ["Oblig/C12Obl.v", "Oblig/ValidFlatObl.v", "Oblig/OptSitesObl.v", "Oblig/C12OptsObl.v", "Oblig/C12FullObl.v"])
     ok, out = C.build_harness()
     ctx.log("go build", out)
     if not ok:
@@ -89,7 +89,7 @@ def run(ctx):
                     "header signature and entry identity as observed by the harness (first 87 columns of the rendered header; rendered entry + addenda without trace/sequence columns, sha256-abbreviated in the interchange)",
                     "payload observation of harness/cmd/c12/full.go (service class, ODFI, header validity, transaction code, routing number, check digit, addenda presence per entry) and the payload lookup of ocaml/c12full/driver.ml",
                     "the processing order for more than 12 batches is obtained by replaying sort.Slice on the entry counts (untrusted hint: the extracted checker flatten_hint re-validates it)"]
-    ctx.assumptions += ["Batch.Create/File.Create/Validate of the consolidated batches is not modelled (validity of the result is checked by the oracle only; C05 owns Create)",
+    ctx.assumptions += ["whole-function theorems (Props/C12Full.v: C12_succeeds, C12_valid) are about files of standard non-ADV batches under default validation options; IAT and ADV batches are inside the executable whole-function model and its correspondence, not inside these two theorems; of Validate only what Arith models (SEC specific rules, addenda sequence numbers: oracle)",
                         "inputs are files valid under default validation options (trace numbers strictly ascending inside a batch and prefixed by the header's ODFI)"]
     if not build(ctx):
         return
